@@ -1,9 +1,134 @@
-(* C15 - Caddyfile and JSON configurations are equivalent, loadable and round-trip. *)
+(* C15 - Caddyfile and JSON configurations are equivalent, loadable and round-trip.
+   Property theorems only; every proof is [exact <lemma>] (lemmas: proofs/CaddyfileProofs.v,
+   proofs/CaddyfileLeafProofs.v) or a computed example.
+
+   Partial: the theorems are about the model of layer4/caddyfile.go and of the leaf modules'
+   UnmarshalCaddyfile over Caddy's token stream (model/Caddyfile.v, model/CaddyfileLeaves.v);
+   Caddy's lexer, Dispenser cursor and module loader are not modelled, "loads and provisions" is
+   checked by the engine only.  Leaf equations are proved for every modelled module
+   ([mleaf_proved] = [mleaf_ok], [hleaf_proved] = [hleaf_ok]); tls/http/quic matchers and the tls
+   handler are not modelled (engine oracle only). *)
 From Coq Require Import List ZArith NArith Bool String.
 From L4.model Require Import Caddyfile CaddyfileLeaves.
-From L4.proofs Require Import CaddyfileProofs.
+From L4.proofs Require Import CaddyfileProofs CaddyfileLeafProofs.
 Import ListNotations.
+Open Scope string_scope.
+
+(* Caddy's token stream of a printed segment tree reads back to the tree *)
+Theorem C15_tokens_roundtrip : forall l, forallb seg_wf l = true -> parse_file (print_segs l) = Some l.
+Proof. exact parse_file_print. Qed.
+
+(* the structural theorem, for ANY leaf types satisfying the leaf equations: every configuration of
+   any nesting depth (not / tee / subroute / several servers / several global blocks) *)
+Theorem C15_adapt_structural_partial :
+  forall (mleaf hleaf : Type) mleaf_name mleaf_seg mleaf_json hleaf_name hleaf_seg hleaf_json
+         (mleaf_ok : mleaf -> bool) (hleaf_ok : hleaf -> bool) mleaf_parse hleaf_parse,
+    (forall x, mleaf_ok x = true -> mleaf_parse (mleaf_name x) (mleaf_seg x) = Some (mleaf_json x)) ->
+    (forall x, exists args hb body, mleaf_seg x = Seg (mleaf_name x :: args) hb body) ->
+    (forall x, mleaf_name x <> "not") ->
+    (forall x, seg_wf (mleaf_seg x) = true) ->
+    (forall x, hleaf_ok x = true -> hleaf_parse (hleaf_name x) (hleaf_seg x) = Some (hleaf_json x)) ->
+    (forall x, exists args hb body, hleaf_seg x = Seg (hleaf_name x :: args) hb body) ->
+    (forall x, hleaf_name x <> "tee" /\ hleaf_name x <> "subroute") ->
+    (forall x, exists l, hleaf_json x = JObj l) ->
+    (forall x, seg_wf (hleaf_seg x) = true) ->
+    forall c : config mleaf hleaf,
+      config_ok mleaf hleaf mleaf_name mleaf_ok hleaf_ok c = true ->
+      adapt mleaf_parse hleaf_parse (print_caddyfile mleaf hleaf mleaf_seg hleaf_seg c) =
+      Some (to_json mleaf hleaf mleaf_name mleaf_json hleaf_name hleaf_json c).
+Proof. exact adapt_structural_gen. Qed.
+
+(* instantiated with the proved leaves of caddy-l4 *)
+Theorem C15_adapt_structural_l4_partial : forall cfg,
+  config_ok_proved cfg = true -> adapt_l4 (print_l4 cfg) = Some (to_json_l4 cfg).
+Proof. exact adapt_structural_l4. Qed.
+
+(* listener-wrapper form *)
+Theorem C15_adapt_structural_lw_partial : forall rb others sites,
+  rblock_ok_proved rb = true -> forallb seg_wf others = true -> forallb seg_wf sites = true ->
+  forallb (fun s => negb (is_layer4 s)) others = true ->
+  adapt_lw_l4 (print_lw_l4 rb others sites) = Some [lw_json_l4 rb].
+Proof. exact adapt_lw_structural_l4. Qed.
 
 Theorem C15_adapt_deterministic : forall ts j1 j2, adapt_l4 ts = Some j1 -> adapt_l4 ts = Some j2 -> j1 = j2.
-Proof. exact adapt_deterministic_l. Qed.
+Proof. exact adapt_deterministic_l4. Qed.
+
+(* the layout choices the grammar leaves open (inline or block matcher sets, inline or block "not")
+   do not change the adapted JSON *)
+Theorem C15_adapt_respects_stated_json : forall c1 c2,
+  config_ok_proved c1 = true -> config_ok_proved c2 = true -> to_json_l4 c1 = to_json_l4 c2 ->
+  adapt_l4 (print_l4 c1) = adapt_l4 (print_l4 c2).
+Proof. exact adapt_respects_json. Qed.
+
+(* leaf equations: every proved matcher / handler module *)
+Theorem C15_matcher_leaves : forall x, mleaf_proved x = true ->
+  mleaf_parse (mleaf_name x) (mleaf_seg x) = Some (mleaf_json x).
+Proof. exact mleaf_eq_proved. Qed.
+Theorem C15_handler_leaves : forall x, hleaf_proved x = true ->
+  hleaf_parse (hleaf_name x) (hleaf_seg x) = Some (hleaf_json x).
+Proof. exact hleaf_eq_proved. Qed.
+
+(* value syntax *)
+Theorem C15_duration_roundtrip : forall d, dur_ok d = true -> parse_duration (print_dur d) = Some (dur_ns d).
+Proof. exact parse_print_dur. Qed.
+Theorem C15_uint_roundtrip : forall bits n, (n <? 2 ^ bits)%N = true -> parse_uint bits (print_N n) = Some n.
+Proof. exact parse_uint_print. Qed.
+Theorem C15_int32_roundtrip : forall z, (- 2147483648 <=? z)%Z && (z <? 2147483648)%Z = true ->
+  parse_int 32 (print_Z z) = Some z.
+Proof. exact parse_int_print. Qed.
+
+(* array-shaped matcher "not": marshal (unmarshal j) = j and unmarshal (marshal s) = s *)
+Theorem C15_json_roundtrip_not : forall j, sets_json_wf j = true ->
+  exists sets, not_unmarshal j = Some sets /\ not_marshal sets = j.
+Proof. exact not_json_roundtrip. Qed.
+Theorem C15_struct_roundtrip_not : forall sets, forallb keys_sorted sets = true ->
+  not_unmarshal (not_marshal sets) = Some sets.
+Proof. exact not_struct_roundtrip. Qed.
+
+(* ---- non-vacuity: a configuration with named matcher sets (inline, block, not), a nested
+   subroute with its own set, a tee, two servers in two global blocks *)
+Definition ex_cfg : configT :=
+  [[Server [":443"; "[::]:8443"]
+      (RBlock (Some (Dur 5 Us))
+         [("@a", true, [MNot true [MLeaf (MRemoteIP [RCidr "10.0.0.0/8"; RPrivate])]]);
+          ("@b", false, [MLeaf MSsh; MLeaf (MSocks4 ["CONNECT"] [] [1080%N])])]
+         [(["@a"; "@b"],
+           [HLeaf (HProxyProtocol [RCidr "192.168.0.0/16"] (Some (Dur 2 Us)));
+            HSubroute None
+              [("@w", true, [MLeaf (MWireguard (Some 7%N))])]
+              [(["@w"], [HTee [HLeaf HEcho];
+                         HLeaf (HProxy (Proxy ["udp/localhost:51820"] [] None None None None None None
+                                              (Some (PRandomChoose (Some 2%Z))) None None None))]);
+               ([], [HLeaf HEcho])]])])];
+   [Server ["udp/:53"] (RBlock None [] [([], [HLeaf (HThrottle (Some (Dur 10 Ums)) (Some 1024%Z) None None None)])])]].
+
+Example C15_nonvacuous :
+  config_ok_proved ex_cfg = true /\
+  adapt_l4 (print_l4 ex_cfg) = Some (to_json_l4 ex_cfg) /\
+  List.length (print_l4 ex_cfg) = 125%nat.
+Proof. vm_compute. repeat split. Qed.
+
+(* the model rejects what the adapter rejects: duplicate set name, undefined reference *)
+Example C15_rejects_duplicate_set :
+  adapt_l4 [LB; NL; W "layer4"; LB; NL; W ":1"; LB; NL; W "@a"; W "ssh"; NL; W "@a"; W "xmpp"; NL;
+            RB; NL; RB; NL; RB; NL] = None.
+Proof. vm_compute. reflexivity. Qed.
+Example C15_rejects_undefined_set :
+  adapt_l4 [LB; NL; W "layer4"; LB; NL; W ":1"; LB; NL; W "route"; W "@zz"; LB; NL; W "echo"; NL; RB; NL;
+            RB; NL; RB; NL; RB; NL] = None.
+Proof. vm_compute. reflexivity. Qed.
+
+Print Assumptions C15_tokens_roundtrip.
+Print Assumptions C15_adapt_structural_partial.
+Print Assumptions C15_adapt_structural_l4_partial.
+Print Assumptions C15_adapt_structural_lw_partial.
 Print Assumptions C15_adapt_deterministic.
+Print Assumptions C15_adapt_respects_stated_json.
+Print Assumptions C15_matcher_leaves.
+Print Assumptions C15_handler_leaves.
+Print Assumptions C15_duration_roundtrip.
+Print Assumptions C15_uint_roundtrip.
+Print Assumptions C15_int32_roundtrip.
+Print Assumptions C15_json_roundtrip_not.
+Print Assumptions C15_struct_roundtrip_not.
+Print Assumptions C15_nonvacuous.
